@@ -1,23 +1,27 @@
 """C11 - the debug map attributes every instruction to its source statement.
 
-Every program of the block-shape family (qv.blockshapes; tagged statements)
-and of the repository corpus is compiled with -g at O0, O1, O2 and the debug
-section is checked against the decoded code, the generator's statement table
-and one scripted run (qv.c11_map)."""
+Every program of the block-shape family (qv.blockshapes; tagged statements),
+of C11's own families (qv.c11_fams) and of the repository corpus is compiled
+with -g at O0, O1, O2 and the debug section is checked against the decoded
+code, the generator's statement table and one scripted run (qv.c11_map).
+See docs/notes/C11.md."""
 from .. import impl, corpus
 from .. import blockshapes as bs
 from .. import c11_map
+from .. import c11_fams as cf
 
 LEVEL = 'exploration'
 HORIZON = 60000
+COUNTERS = ('tag_instrs', 'io_checked', 'trap_checked', 'records', 'instrs',
+            'empty_records', 'find_calls', 'ev_checked', 'tags_absent')
 
 
-def judge(src, stmts, script, on_empty, opts=(0, 1, 2)):
+def judge(src, stmts, script, on_empty, opts=(0, 1, 2), fail=None):
     """-> ({(divergence, stmt_kind): {'opts': [...], 'detail': first}}, info)"""
     groups = {}
     info = {'accepted': False, 'tag_instrs': 0, 'io_checked': 0, 'trap_checked': 0,
             'records': 0, 'instrs': 0, 'empty_records': 0, 'outcomes': set(),
-            'code_differs': False, 'find_calls': 0}
+            'code_differs': False, 'find_calls': 0, 'ev_checked': 0, 'tags_absent': 0}
     codes = []
     for o in opts:
         r = impl.compile_text(src, o, True, want_listing=False)
@@ -31,9 +35,8 @@ def judge(src, stmts, script, on_empty, opts=(0, 1, 2)):
             groups.setdefault(('load', '-'), {'opts': [], 'detail': str(e)[:200]})['opts'].append(o)
             continue
         codes.append(bytes(mod.code))
-        bad, inf = c11_map.analyse(src, mod, stmts, script, on_empty, horizon=HORIZON)
-        for k in ('tag_instrs', 'io_checked', 'trap_checked', 'records', 'instrs',
-                  'empty_records', 'find_calls'):
+        bad, inf = c11_map.analyse(src, mod, stmts, script, on_empty, horizon=HORIZON, fail=fail)
+        for k in COUNTERS:
             info[k] += inf[k]
         if inf['outcome']:
             info['outcomes'].add(tuple(inf['outcome']))
@@ -45,42 +48,67 @@ def judge(src, stmts, script, on_empty, opts=(0, 1, 2)):
     return groups, info
 
 
-def _feat_of(fam, feat, div, kind, opts):
-    f = {'family': fam, 'divergence': div, 'stmt': kind,
-         'opt': ','.join(f'O{o}' for o in sorted(opts))}
-    for k in ('construct', 'cond'):
-        if k in feat:
-            f[k] = feat[k]
-    if 'outer' in feat:
-        f['cond'] = feat['outer'].get('cond', '-')
-        f['inner_cond'] = feat['inner'].get('cond', '-')
-    return f
+def traits_of(stmts):
+    """input-side peculiarities of a generated program that a root cause may
+    hinge on (ledger matching): 'select0' = a SELECT CASE block without any
+    CASE clause; 'codeless-body' = a block body that is not empty but holds
+    only declarations / DATA / comments / labels (statements without code)"""
+    if not stmts:
+        return []
+    out = set()
+    for s in stmts:
+        if s['kind'] == 'select' and not any(
+                c['blk'] == s['id'] and c['kind'] in ('case', 'caseelse') for c in stmts):
+            out.add('select0')
+        kids = [c for c in stmts if c['parent'] == s['id']]
+        if kids and s['kind'] != 'if1' and all(c.get('nocode') for c in kids):
+            out.add('codeless-body')
+    return sorted(out)
+
+
+def _feat_of(fam, feat, div, kind, opts, stmts):
+    """coarse on purpose: one root cause should be one group.  The construct,
+    conditions and layout of the representative are in case['feat']."""
+    return {'family': fam, 'divergence': div, 'stmt': kind,
+            'from_opt': 'O%d' % min(opts), 'traits': traits_of(stmts)}
+
+
+def materialise(item):
+    """item -> (src, stmts, script, on_empty, fail, feat)"""
+    fam = item[0]
+    if fam == 'corpus':
+        _, src, script, feat = item
+        return src, None, script, None, None, feat
+    _, payload, style, feat = item
+    if fam in ('kinds', 'headers'):
+        src, stmts = cf.build(payload, style)
+        fail = cf.FAIL_DEVICES if any(s['kind'] == 'devfail' for s in stmts) else None
+        return src, stmts, cf.SCRIPT, cf.ON_EMPTY, fail, feat
+    if fam == 'layout':
+        p = bs.render(payload, 'nl', feat)
+        src, stmts = cf.relayout(p.src, p.stmts, style)
+        return src, stmts, bs.SCRIPT, bs.ON_EMPTY, None, feat
+    p = bs.render(payload, style, feat)
+    return p.src, p.stmts, bs.SCRIPT, bs.ON_EMPTY, None, feat
 
 
 def eval_chunk(chunk):
     impl.parse_cache(True)
     viol = []
     st = {'evaluations': 0, 'compiles': 0, 'accepted': 0, 'nontrivial': 0,
-          'tag_instrs': 0, 'io_checked': 0, 'trap_checked': 0, 'records': 0,
-          'instrs': 0, 'empty_records': 0, 'find_calls': 0, 'code_differs_across_O': 0,
-          'outcomes': set(), 'per_family': {}}
+          'code_differs_across_O': 0, 'outcomes': set(), 'per_family': {}}
+    for k in COUNTERS:
+        st[k] = 0
     for item in chunk:
         fam = item[0]
-        if fam == 'corpus':
-            _, src, script, feat = item
-            stmts, on_empty = None, None
-        else:
-            _, shape, style, feat = item
-            p = bs.render(shape, style, feat)
-            src, stmts, script, on_empty = p.src, p.stmts, bs.SCRIPT, bs.ON_EMPTY
-        groups, info = judge(src, stmts, script, on_empty)
+        src, stmts, script, on_empty, fail, feat = materialise(item)
+        groups, info = judge(src, stmts, script, on_empty, fail=fail)
         st['evaluations'] += 1
         st['compiles'] += 3
         st['per_family'][fam] = st['per_family'].get(fam, 0) + 1
         if info['accepted']:
             st['accepted'] += 1
-        for k in ('tag_instrs', 'io_checked', 'trap_checked', 'records', 'instrs',
-                  'empty_records', 'find_calls'):
+        for k in COUNTERS:
             st[k] += info[k]
         if info['tag_instrs'] + info['io_checked'] + info['trap_checked'] > 0 or \
                 (fam == 'corpus' and info['records'] > 0):
@@ -89,9 +117,10 @@ def eval_chunk(chunk):
             st['code_differs_across_O'] += 1
         st['outcomes'] |= {(fam,) + tuple(x) for x in info['outcomes']}
         for (div, kind), g in groups.items():
-            f = _feat_of(fam, feat, div, kind, g['opts'])
+            f = _feat_of(fam, feat, div, kind, g['opts'], stmts)
             case = {'src': src, 'stmts': stmts, 'script': script, 'on_empty': on_empty,
-                    'feat': feat, 'opt': g['opts'][0]}
+                    'fail': list(fail) if fail else None,
+                    'feat': feat, 'opt': g['opts'][0], 'opts': g['opts']}
             viol.append((f, case, 'debug map consistent with code, source and run',
                          {'divergence': div, 'detail': impl.jsonable(g['detail'])}, len(src)))
     return viol, st
@@ -101,6 +130,10 @@ def space(tier):
     fams = {}
     for fam, p in bs.programs(tier):
         fams.setdefault(fam, []).append((fam, p.shape, p.style, p.feat))
+    fams['kinds'] = [('kinds', nodes, style, feat) for feat, nodes, style in cf.kinds_programs(tier)]
+    fams['headers'] = [('headers', nodes, style, feat) for feat, nodes, style in cf.header_programs(tier)]
+    fams['pairs'] = [('pairs', items, style, feat) for feat, items, style in cf.pair_programs(tier)]
+    fams['layout'] = [('layout', items, style, feat) for feat, items, style in cf.layout_programs(tier)]
     cs = []
     for c in corpus.cases():
         cs.append(('corpus', c['src'], corpus.script_of(c),
@@ -122,17 +155,16 @@ def run(chk):
             chk.add_violations(viol)
             chk.merge_stats(st)
         for it in (items[0], items[len(items) // 2], items[-1]):
-            if name == 'corpus':
-                chk.sample({'family': name, 'src': it[1][:300]})
-            else:
-                chk.sample({'family': name, 'src': bs.render(it[1], it[2]).src[:300]})
+            chk.sample({'family': name, 'src': materialise(it)[0][:300]})
     chk.cov['distinct_nontrivial'] = chk.cov.get('nontrivial', 0)
     nout = len(chk.cov.get('_sets', {}).get('outcomes', ()))
     chk.assumptions = [
-        'programs are those of the block-shape family (nesting <= 2, bounds in coverage.space) and the corpus',
+        'programs are those of the block-shape family (nesting <= 2, bounds in coverage.space), of '
+        'qv.c11_fams (statement kinds x contexts, header expressions that trap or call a device, adjacent '
+        'constructs, re-laid-out depth-1 programs) and the corpus',
         'ground truth exists only for instructions that carry a tag literal, for executed device '
-        'instructions and for the constructed overflowing statement; untagged instructions are judged '
-        'structurally (coverage, uniqueness, nesting)',
+        'instructions whose event names its statement and for the address of a constructed run-time '
+        'error; other instructions are judged structurally (coverage, uniqueness, nesting)',
         'corpus programs have no statement table: structural oracles and non-None attribution only',
         'one scripted run per module, cut at %d ticks' % HORIZON,
     ]
@@ -149,7 +181,8 @@ def replay(rec):
     src = case['src']
     print('--- source ---')
     print(src)
-    groups, info = judge(src, case.get('stmts'), case.get('script'), case.get('on_empty'))
+    groups, info = judge(src, case.get('stmts'), case.get('script'), case.get('on_empty'),
+                         fail=case.get('fail'))
     for o in (0, 1, 2):
         r = impl.compile_text(src, o, True)
         print(f'--- O{o} -g: {r.brief()}')
